@@ -217,3 +217,69 @@ def term(x):
   if isinstance(x, Sym):
     return x.e
   return x
+
+
+# --------------------------------------------------------------------------- text tokens (symbolic values through '%f' / np.fromstring)
+TOK_BASE = 1.0e9
+
+
+class Tokens:
+  """symbolic numbers survive formatting/parsing round trips as reserved float tokens 1e9 + k"""
+
+  def __init__(self):
+    self.terms = []
+    self.index = {}
+
+  def tok(self, sym):
+    k = sym.e.get_id()
+    if k not in self.index:
+      self.index[k] = len(self.terms)
+      self.terms.append(sym)
+    return TOK_BASE + self.index[k]
+
+  def lookup(self, v):
+    return self.terms[int(round(v - TOK_BASE))]
+
+  def text(self, sym):
+    return '%f' % self.tok(sym)
+
+  def fromstring(self, s, sep=' ', **kw):
+    import numpy as _np
+    pieces = [p for p in str(s).replace(',', ' ').split() if p]
+    vals = [float(p) for p in pieces]
+    if not any(v >= TOK_BASE - 0.5 for v in vals):
+      return _np.array(vals, dtype=float)
+    out = _np.empty(len(vals), dtype=object)
+    for i, v in enumerate(vals):
+      out[i] = self.lookup(v) if v >= TOK_BASE - 0.5 else v
+    return out
+
+
+TOKENS = Tokens()
+
+
+def _sym_float(self):
+  return TOKENS.tok(self)
+
+
+Sym.__float__ = _sym_float
+
+
+class NumpyProxy:
+  """stands in for the `np` global of a module under FX: np.fromstring understands tokens, everything else is numpy"""
+
+  def __init__(self):
+    import numpy as _np
+    self._np = _np
+
+  def fromstring(self, s, sep=' ', **kw):
+    return TOKENS.fromstring(s, sep=sep, **kw)
+
+  def isinf(self, a):
+    a_ = self._np.asarray(a)
+    if a_.dtype == object:
+      return self._np.array([False if isinstance(v, Sym) else bool(self._np.isinf(v)) for v in a_.reshape(-1)]).reshape(a_.shape)
+    return self._np.isinf(a)
+
+  def __getattr__(self, k):
+    return getattr(self._np, k)
